@@ -23,6 +23,7 @@ CLAUSE_PROPERTY = [
     ('op.ite', 'C01'), ('op.not', 'C01'), ('op.apply.quantifier', 'C03'),
     ('op.apply.', 'C01'), ('op.alias_rejected', 'C01'), ('fn.', 'C01'),
     ('op.var', 'C01'), ('op.cube', 'C01'), ('op.apply', 'C01'),
+    ('op.build', 'C01'),
     ('canon.', 'C02'),
     ('op.quantify', 'C03'), ('quant.', 'C03'),
     ('op.cofactor', 'C04'), ('op.compose', 'C04'), ('op.rename', 'C04'),
